@@ -47,6 +47,9 @@ FirstSnap(r, R, t, o, j) ==
      IF j \in want /\ here THEN t1
      ELSE IF t.inflight > 0 /\ j \in raceWant
           THEN Devi(r, [t1 EXCEPT !.inflight = 0], "PauseRace", "after " \o t.pend.kind \o ": the in-flight instruction of the machine thread ran during the step")
+     ELSE IF t.pend.kind = "next" /\ j = NextImpl(r.prog, R, t.pend.from) /\ Depth(R[j]) > Depth(R[t.pend.from]) /\ here
+          THEN Devi(r, t1, "NextIgnoresCallDepth", "next over a jsr stopped inside a nested call: the address behind the jsr was reached at call depth "
+                           \o ToString(Depth(R[j])) \o " instead of " \o ToString(Depth(R[t.pend.from])))
      ELSE IF t.pend.kind = "stepOut" /\ Depth(R[t.pend.from]) > 0 /\ ~TopIsRet(R[t.pend.from]) /\ j = StepOutImpl(R, t.pend.from) /\ here
           THEN Devi(r, t1, "StepOutReadsTopOfStack", "stepOut with data pushed inside the subroutine ran to the end of the test")
      ELSE IF t.inflight > 0 /\ t.pend.kind = "stepOut" /\ Depth(R[Succ(R, t.pend.from)]) > 0 /\ ~TopIsRet(R[Succ(R, t.pend.from)])
@@ -106,6 +109,16 @@ Probe(r, R, t, o) ==
                  THEN [t1 EXCEPT !.out = Append(@, V(r.id, "info", "ProbeAnchored", "1"))]     \* non-vacuity: the breakpoint line is still ahead
             ELSE t1
 
+(* evaluate of ram(a) / ram16(a) while stopped. The test's memory is the program image at base and zero elsewhere, and the 16-bit  *)
+(* address space wraps: every such request is answered, with the value of the byte(s) at a, a+1 mod 65536 (0 outside the image).      *)
+(* The driver only reads outside the image. An unanswered request = the session thread died in the handler.                           *)
+EvalMem(r, t, o) ==
+  IF t.mode # "stopped" THEN t
+  ELSE IF o.answered /\ o.ok /\ o.val = 0 THEN t
+  ELSE IF ~o.answered /\ o.width = 2 /\ o.addr = 65535
+       THEN Devi(r, t, "EvaluatePastEndOfMemoryPanics", "evaluate ram16($ffff) is never answered (the read crosses the end of the address space)")
+  ELSE Viol(r, t, "evaluate ram" \o (IF o.width = 2 THEN "16" ELSE "") \o "(" \o ToString(o.addr) \o ") " \o (IF o.answered THEN "gave a wrong value or an error" ELSE "was never answered"))
+
 Obs1(r, R, t, o) ==
   CASE o.k = "setbps" -> [t EXCEPT !.bps = SeqSet(o.lines), !.stable = IF t.mode = "running" THEN @ \cap SeqSet(o.lines) ELSE SeqSet(o.lines)]
     [] o.k = "launch" -> [t EXCEPT !.mode = "running", !.resume = 1, !.exempt = FALSE, !.stable = t.bps, !.credit = FALSE]
@@ -133,6 +146,7 @@ Obs1(r, R, t, o) ==
             [] OTHER -> t)
     [] o.k = "snap" -> Snap(r, R, t, o)
     [] o.k = "probe" -> Probe(r, R, t, o)
+    [] o.k = "evalmem" -> EvalMem(r, t, o)
     [] OTHER -> t
 
 RECURSIVE Fold1(_, _, _, _)
